@@ -515,6 +515,7 @@ impl Inst {
 /// knobs of the structured generator
 #[derive(Clone, Debug)]
 pub struct Profile {
+    pub min_types: u64,
     pub max_types: u64,
     pub max_locs: u64,
     pub min_locs: u64,
@@ -538,6 +539,7 @@ pub struct Profile {
 impl Profile {
     pub fn small() -> Profile {
         Profile {
+            min_types: 1,
             max_types: 2,
             max_locs: 3,
             min_locs: 2,
@@ -555,6 +557,7 @@ impl Profile {
     }
     pub fn medium() -> Profile {
         Profile {
+            min_types: 1,
             max_types: 3,
             max_locs: 4,
             min_locs: 2,
@@ -574,6 +577,7 @@ impl Profile {
     /// and asymmetric dead-head matrices: rotation cycles of three and more vehicles
     pub fn fleet_heavy() -> Profile {
         Profile {
+            min_types: 1,
             max_types: 1,
             max_locs: 3,
             min_locs: 2,
@@ -593,6 +597,7 @@ impl Profile {
     /// maintained vehicles: long rotation cycles whose greedy order the cycle 3-opt improves
     pub fn cycle_heavy() -> Profile {
         Profile {
+            min_types: 1,
             max_types: 1,
             max_locs: 5,
             min_locs: 4,
@@ -608,8 +613,30 @@ impl Profile {
             fleet_heavy: true,
         }
     }
+    /// two or three types, each with a fleet of its own (every type has a route, many single-segment
+    /// departures, several maintained vehicles): the transition optimiser changes the rotation
+    /// cycles of more than one type in the same run
+    pub fn multi_fleet() -> Profile {
+        Profile {
+            min_types: 2,
+            max_types: 2,
+            max_locs: 5,
+            min_locs: 3,
+            min_departures: 12,
+            max_departures: 20,
+            max_route_segs: 1,
+            maint_percent: 100,
+            max_maint: 2,
+            span_steps: 30,
+            max_demand_factor: 1,
+            maint_heavy: true,
+            non_transitive: false,
+            fleet_heavy: true,
+        }
+    }
     pub fn maint_heavy() -> Profile {
         Profile {
+            min_types: 1,
             max_types: 2,
             max_locs: 3,
             min_locs: 2,
@@ -631,7 +658,7 @@ pub const GRID: u64 = 600;
 pub const BASE: u64 = 86400;
 
 pub fn gen_instance(rng: &mut Rng, p: &Profile) -> Inst {
-    let ntypes = rng.range(1, p.max_types) as usize;
+    let ntypes = rng.range(p.min_types, p.max_types) as usize;
     let nlocs = rng.range(p.min_locs, p.max_locs) as usize;
     let mut vtypes = vec![];
     for _ in 0..ntypes {
@@ -650,11 +677,11 @@ pub fn gen_instance(rng: &mut Rng, p: &Profile) -> Inst {
         vtypes.push(VType { capacity, seats, max_form });
     }
     // routes
-    let nroutes = rng.range(1, 3.max(ntypes as u64)) as usize;
+    let nroutes = if p.min_types > 1 { ntypes } else { rng.range(1, 3.max(ntypes as u64)) as usize };
     let mut routes: Vec<Route> = vec![];
     for r in 0..nroutes {
         // make sure every type has a route with reasonable probability
-        let vt = if r < ntypes && rng.chance(80) { r } else { rng.below(ntypes as u64) as usize };
+        let vt = if p.min_types > 1 { r } else if r < ntypes && rng.chance(80) { r } else { rng.below(ntypes as u64) as usize };
         let nsegs = rng.range(1, p.max_route_segs) as usize;
         let mut segs = vec![];
         let mut at = rng.below(nlocs as u64) as usize;
